@@ -53,6 +53,17 @@ CLAIMED["C16"] = ("model_checking",
   "Trusted: TLC; the fault-free reference output is produced by the library in the same run and is itself judged as a C09 trace.",
   "DESIGN.md section 6 C16")
 
+CLAIMED["C03"] = ("model_checking",
+  "TLC proves on a bounded universe that the TLA+ reference decoder inverts every legal encoding (MC_Wire: all block compositions, size prefixes, null positions) and emits each (schema, datum, encoding) vector; the vectors are replayed through the real ReadFile into generated target types and TLC judges the delivered values with GoModel!Rep / Fits (Trace_Codec)",
+  "The bytes fed to the reader are produced by the specification, not by the library: for every schema of the universe (all primitives, fixed, arrays/maps of them, nested collections, unions with null first and second, single- and multi-branch unions, records), every datum and every legal serialisation. The harness wraps them in containers with its own writer (3 codecs, several block partitions) and reads into 5 target variants (natural, int16, pointer indirection, null.* wrappers + float32, Go int + double pointers). TLC demands the datum's values, or an error when an integer does not fit the target width.",
+  "Trusted: TLC, harness/project.go, harness/schema2go.go. The universe is bounded (803 vectors quick); enum is outside the supported subset.",
+  "DESIGN.md section 6 C03")
+CLAIMED["C04"] = ("model_checking",
+  "Same vector machinery as C03 over wide and nested record schemas; targets obtained by deleting, permuting and adding fields at every depth; TLC judges projected values with GoModel!Rep (direction r) and that Codec.Read and Codec.Skip consume exactly the encoding (Trace_Codec!FailsLefts)",
+  "For wide/nested records whose fields cover every kind followed by further fields (long, array, string, map, nullable union, fixed, bytes, nested record, array of records, nullable record), in unsized, sized and one-item-per-block encodings, the real reader decodes into the full target, the empty target, even/odd/first/last subsets, permuted targets with extra fields and seeded random subsets; remaining fields must hold the datum's values, extra fields must be zero, the file must be consumed completely; and for every vector of the general universe Read and Skip must each leave exactly the three guard bytes.",
+  "Trusted: TLC, harness/project.go, harness/schema2go.go.",
+  "DESIGN.md section 6 C04")
+
 NOT_APPLICABLE = {}
 
 def main():
